@@ -299,7 +299,9 @@ theorem params_loop (q : Nat) : ∀ (rest acc : NList) (k j : Nat), (∀ x ∈ r
     have hty2 : (s.get (k + 2)).type = t.type := seg_type hseg.2.1
     have ih := params_loop q rest (acc ++ [some (.ident t)]) (k + 2) j (fun y hy => hall y (List.mem_cons_of_mem _ hy)) hseg.2.2 (by omega)
     refine ⟨Ev.step 0 1 (fun F _ ha f hf => ?_) ih.1, ?_⟩
-    · rw [parseFunctionParametersLoop_step (by simpa using hcomma), advance_stAt, advance_stAt, stAt_cur, htk, ha f hf, List.append_assoc]
+    · rw [parseFunctionParametersLoop_step (by simpa using hcomma)
+        (by simp only [advance_stAt, stAt_cur, hty2]; rcases ht with h | h <;> rw [h] <;> decide),
+        advance_stAt, advance_stAt, stAt_cur, htk, ha f hf, List.append_assoc]
       rfl
     · rw [ih.2, lastDotDot, hty2]; rfl
 
@@ -332,6 +334,7 @@ theorem params_parse (q : Nat) (params : NList) (variadic : Bool) (k j : Nat) (h
     refine Ev.step 0 0 (fun F _ ha f hf => ?_) ih.1
     show parseFunctionParameters s f (stAt s k) = _
     rw [parseFunctionParameters_ok (st1 := stAt s j') (ids := [some (.ident t)] ++ rest)
+      (by simp only [stAt_peek, hty]; rcases ht with h | h <;> rw [h] <;> decide)
       (by simp only [stAt_peek, hty]; rcases ht with h | h <;> rw [h] <;> decide)
       (by simp only [stAt_peek, htk, advance_stAt]; exact ha f hf) (by simp only [stAt_peek]; exact hclose), advance_stAt, stAt_cur]
     have hv : decide ((s.get j').type = .DOTDOT) = variadic := by
